@@ -207,7 +207,25 @@ func (s *ldapService) SetChannel(c pushers.Channel) {
 	s.c = c
 }
 
+// Handle serves one connection.  Socket, reader, TLS and bind state belong to the
+// connection: they live on a session object made for it (a copy of the configuration
+// with request handlers bound to that copy), never on the shared service object.
 func (s *ldapService) Handle(ctx context.Context, conn net.Conn) error {
+	session := &ldapService{
+		Server: Server{
+			Handlers:    make([]requestHandler, 0, 4),
+			Credentials: s.Credentials,
+			tlsConfig:   s.tlsConfig,
+			DSE:         s.DSE,
+		},
+		c: s.c,
+	}
+	session.setHandlers()
+
+	return session.serve(ctx, conn)
+}
+
+func (s *ldapService) serve(ctx context.Context, conn net.Conn) error {
 	s.wantTLS = false
 
 	s.login = "" // set the anonymous authstate
